@@ -76,6 +76,9 @@ def run(prop, tier, seed):
                     if kind == 'sem' and permits >= 2:
                         prog[3] = list(rounds)
                     dfs.append((cfg, prog, 2, 50 if tier == 'quick' else 400, seed))
+                    if kind == 'lock':
+                        dfs.append((cfg, {1: ['locked', 'acquire', 'locked', 'release', 'locked']}, 2, 5, seed))
+                        dfs.append((cfg, {1: ['acquire', 'locked', 'release'], 2: ['locked', 'acquire', 'locked', 'release']}, 2, 30 if tier == 'quick' else 200, seed))
                     if kind == 'rlock':
                         dfs.append((cfg, {1: list(rounds), 2: ['bad_release'] + list(rounds)}, 2, 30 if tier == 'quick' else 200, seed))
                     if kind == 'sem':
